@@ -160,6 +160,7 @@ def universe(tier):
                                 yield {"sk": sk, "edges": edges, "kg": kg, "sp": spelling, "pin": pin, "shared": shared, "mode": mode}
     yield from longgaps(tier)
     yield from mixedgaps(tier)
+    yield from precsame(tier)
 
 
 LONG_GAPS = ["1m", "2m", "1.5m", "1y", "5w", "45d", "1000h", "0.5y"]
@@ -224,7 +225,34 @@ def mixedgap_spec(it):
             "resources": [{"id": "r1"}, {"id": "r2"}, {"id": "r3"}], "tasks": tasks}
 
 
+def precsame(tier):
+    """'precedes' towards a target (leaf or container) that already depends on ANOTHER task with the same short id as the source"""
+    for gap in (None, "4h", "1d"):
+        for target in ("leaf", "container"):
+            for alap in (False, True):
+                for onstart in ((False, True) if not alap else (False,)):
+                    yield {"kind": "precsame", "gap": gap, "target": target, "alap": alap, "onstart": onstart}
+
+
+def precsame_spec(it):
+    d = {"ref": "release"}
+    if it["gap"]:
+        d["gap"] = it["gap"]
+    if it["onstart"]:
+        d["onstart"] = True
+    leaf = lambda i, m, r, **kw: {"id": i, "effort": m, "alloc": [r], **kw}  # noqa: E731
+    p1 = {"id": "phase1", "children": [leaf("review", 300, "r1", prec=[d if len(d) > 1 else "release"])]}
+    p2 = {"id": "phase2", "children": [leaf("review", 60, "r2")]}
+    if it["target"] == "leaf":
+        rel = leaf("release", 60, "r3", deps=["phase2.review"])
+    else:
+        rel = {"id": "release", "deps": ["phase2.review"], "children": [leaf("notes", 60, "r3"), leaf("ship", 30, "r2")]}
+    return {"dur": "4w", "alap": it["alap"], "resources": [{"id": "r1"}, {"id": "r2"}, {"id": "r3"}], "tasks": [p1, p2, rel]}
+
+
 def to_spec(it):
+    if it.get("kind") == "precsame":
+        return precsame_spec(it)
     if it.get("kind") == "mixedgap":
         return mixedgap_spec(it)
     if it.get("kind") == "longgap":
